@@ -222,6 +222,38 @@ def direct_case(rng, rec, case, cmds=None, name=None):
         shutil.rmtree(root, ignore_errors=True)
 
 
+def twice_case(rng, rec, case):
+    '''One task object executed twice, with another environment (the command
+    line is taken from it) and another output root the second time.'''
+    from valjean.cosette.run import RunTaskFactory
+    from valjean.cosette.env import Env
+    name = rng.choice(NAMES)
+    factory = RunTaskFactory.from_executable(
+        '/bin/sh', name='sh' + name, default_args=['-c', '{env[script]}'])
+    task = factory.make(name=name)
+    name = task.name          # the factory appends its own name
+    roots = []
+    try:
+        for run_no in range(2):
+            root = setup_root()
+            roots.append(root)
+            cmds = gen_task(rng, root, f'w{run_no}', ncmd=1,
+                            codes=[rng.choice(CODES)], bad=(9, 'sh'))
+            cmds[0]['cli'] = ['/bin/sh', '-c', cmds[0]['cli'][2]]
+            env = Env({'script': cmds[0]['cli'][2]})
+            try:
+                update, status = task.do(env, make_config(root))
+            except Exception as err:  # pylint: disable=broad-except
+                judge(name, cmds, None, None, root, rec, case, raised=err)
+                return
+            judge(name, cmds, status, update, root, rec, case)
+            rec.count('same_task_object_executed_again', run_no)
+        rec.seen(('twice', name))
+    finally:
+        for root in roots:
+            shutil.rmtree(root, ignore_errors=True)
+
+
 def relocate(cmds, root):
     '''Point the markers of pre-built commands to this root.'''
     out = []
@@ -432,7 +464,10 @@ def one(rng, idx, rec, case):
     elif idx % 3 == 0:
         scheduler_case(rng, rec, case)
     elif idx % 3 == 1:
-        direct_case(rng, rec, case)
+        if idx % 12 == 1:
+            twice_case(rng, rec, case)
+        else:
+            direct_case(rng, rec, case)
     else:
         # a name that cannot be a directory of its own must be rejected
         name = rng.choice(BAD_NAMES)
